@@ -41,3 +41,4 @@ CFG = {'level': 'exploration',
                  'the strict parser reads the formatted result correctly (guarded by C02/C20)',
                  'requested lists have distinct paths and valid versions']}
 CFG['level_text'] += ' A quarter of the go.mod rounds first change the go version on the same structure (AddGoStmt across and around 1.21, including pre-release versions); block order is judged by the version the file then declares.'
+CFG['level_text'] += ' Half of the multi-round cases continue on the structure of the previous round instead of re-parsing its output.'
